@@ -55,7 +55,13 @@ TRUSTED_BASE = [
 ASSUMPTIONS = [
     "whole-round termination (T2 run_terminates) is a theorem about the token abstraction RoundMachine, not about CoreVM; programs the verified "
     "checker roundRanked rejects are outside the hypothesis (no termination verdict for them)",
-    "ErrContain does not model the recursive child/action clean-up of _abort_flow/_finish_flow (C06) nor forked-head recursion",
+    "the ErrContain FRAGMENT does not model the recursive child/action clean-up of _abort_flow/_finish_flow nor forked-head recursion; "
+    "both are covered by the CoreVM theorems of phase 4 (frame through _abort_flow / _finish_flow / slide / _advance_head_front, vm_advance_frame), "
+    "which rest on CoreVM being the interpreter (C09 translator + correspondence) and are re-checked on the real FlowStates by the run-time frame "
+    "comparison around every top-level _advance_head_front call",
+    "no-propagation is a THEOREM only for faulty LEAF instances (vm_leaf_error_never_propagates; tag faulty-instance:leaf) — for instances with child "
+    "flows or actions only the provenance clause of vm_error_contained is proved; raise sites outside every try block exist in the pinned tree "
+    "(three open findings) and are covered by the oracle 'nothing escapes / every observer reacts'",
     "the sliding graph over-approximates: dynamic `send $ref.X()` of non-action references is treated as sliding",
     "programs in which an activated flow completes a full pass on internally generated events only (e.g. `await` of a flow that "
     "finishes immediately) are outside the hypothesis 'loops contain a waiting statement' and are not generated",
@@ -450,6 +456,14 @@ def install():
         except Exception as e:  # noqa
             rec["exc"] = type(e).__name__
             st["errs"].append([flow_state.uid, flow_config.id, "slide", type(e).__name__])
+            try:  # hypothesis `Leafish1` of the Lean theorem vm_leaf_error_never_propagates, evaluated on the real FlowState at the raise
+                par = state.flow_states.get(flow_state.parent_uid) if flow_state.parent_uid is not None else None
+                leaf = (not flow_state.child_flow_uids and not flow_state.action_uids
+                        and (flow_state.parent_uid is None or (par is not None and (flow_state.activated != 0 or flow_state.uid in par.child_flow_uids)))
+                        and not any(fs.context is flow_state.context for u, fs in state.flow_states.items() if u != flow_state.uid))
+                st["leaf"].append(bool(leaf))
+            except Exception:  # noqa
+                pass
             raise
         finally:
             if rnd is not None and _R.round is rnd:
@@ -711,7 +725,7 @@ def run_impl(case):
     signal.signal(signal.SIGVTALRM, _vt_alarm)
     for ev in case["events"]:
         st = {"slides": 0, "moves": 0, "ievents": 0, "colang_errors": 0, "rtc_exc": [], "samples": [], "scans": [], "scan": None,
-              "over_bound": [], "max_iter_ratio": 0.0, "budget": 10 ** 9, "rounds": [], "errs": [], "failed_uids": [], "failed_flows": [], "rtc_site": []}
+              "over_bound": [], "max_iter_ratio": 0.0, "budget": 10 ** 9, "rounds": [], "errs": [], "failed_uids": [], "failed_flows": [], "rtc_site": [], "leaf": []}
         st["budget"] = BUDGET_FACTOR * (sum(len(p) for p in progs.values()) + 10)
         _R.st = st
         call = {"event": ev["type"], "out": [], "pe_exc": None, "budget_hit": None}
@@ -731,6 +745,7 @@ def run_impl(case):
         call.update({k: st[k] for k in ("slides", "moves", "ievents", "colang_errors", "rtc_exc", "rtc_site", "max_iter_ratio")})
         # every flow INSTANCE in which a statement raised: what became of it by the end of this call
         call["errs"] = len(st["errs"])
+        call["leaf"] = list(st["leaf"])
         call["failed_flows"] = sorted(set(st["failed_flows"]))
         call["err_types"] = sorted({e[3] for e in st["errs"]})
         call["unfailed"] = []
@@ -1190,6 +1205,9 @@ def tags(case, obs):
             t.append("frame:not-closed")
         if fr.get("violations"):
             t.append("frame:violation")
+        lf = [x for c in obs["calls"] for x in c.get("leaf", [])]
+        if lf:
+            t.append("faulty-instance:leaf" if all(lf) else "faulty-instance:has-children-or-actions")
         ne = sum(c.get("errs", 0) for c in obs["calls"])
         t.append("errors-raised:" + (str(ne) if ne < 3 else "3+"))
         if sum(1 for c in obs["calls"] if c.get("errs", 0)) > 1:
